@@ -137,7 +137,7 @@ Incr(oldtext, P, f, date, today, dev) ==
   LET c2 == ResetRight(P, v, Numeric(c0, f))
       t  == RenderD(c2, P, dev.s12)
   IN IF t = <<>> \/ t = oldtext THEN None ELSE t
-AsDoc  == [s2 |-> FALSE, s6 |-> FALSE, s7 |-> FALSE, s12 |-> FALSE, s16 |-> FALSE]
+AsDoc  == [s2 |-> FALSE, s6 |-> FALSE, s7 |-> FALSE, s12 |-> FALSE, s14 |-> FALSE, s16 |-> FALSE]
 
 (***************************************************************************)
 (* The README bump rules, one clause per part, independent of how Incr     *)
